@@ -1,34 +1,48 @@
 #!/usr/bin/env python3
-"""Run every check against the benign refactorings delivered by sub-agents (as in-memory overlays).
-usage: benign_run.py <ID>... ; reads /tmp/seed/<ID>/benign/N/patch.diff. Any report is a false alarm."""
+"""Run checks against benign refactorings (as in-memory overlays). Any report is a false alarm.
+usage: benign_run.py [--own] [--dir benign|benign2] <ID>...      patches /tmp/seed/<ID>/<dir>/N/patch.diff
+       benign_run.py [--own] --stored [glob]                      patches /verif/selftest/variants/b/<glob>.diff
+--own: only the check of the property the variant was written for (default: every property)."""
 import json, os, subprocess, sys, glob
 from concurrent.futures import ThreadPoolExecutor
 BIN = os.environ.get("RCVERIF", "/verif/bin/rcverif")
+args = sys.argv[1:]
+own = "--own" in args
+args = [a for a in args if a != "--own"]
+d = "benign"
+if "--dir" in args:
+    i = args.index("--dir"); d = args[i+1]; args = args[:i] + args[i+2:]
 props = subprocess.run([BIN, "list"], capture_output=True, text=True).stdout.split()
+patches = []
+if args and args[0] == "--stored":
+    pat = args[1] if len(args) > 1 else "*"
+    patches = [(p, os.path.basename(p).split("-")[0]) for p in sorted(glob.glob(f"/verif/selftest/variants/b/{pat}.diff"))]
+else:
+    for pid in args:
+        patches += [(p, pid) for p in sorted(glob.glob(f"/tmp/seed/{pid}/{d}/*/patch.diff"))]
 def run(job):
     patch, prop = job
     out = subprocess.run([BIN, "mutant", "-property", prop, "-patch", patch], capture_output=True, text=True)
     try:
-        d = json.loads(out.stdout)
+        r = json.loads(out.stdout)
     except Exception:
         return patch, prop, ["ERROR " + out.stderr[-300:]]
-    if d.get("skipped") or d.get("load_error"):
-        return patch, prop, ["SKIP/LOADERR " + str(d.get("skipped") or d.get("load_error"))[:200]]
-    return patch, prop, sorted(set(v["rule"] + " " + v["func"] + " | " + v["construct"] + " :: " + v.get("detail", "")[:160] for v in d["violations"]))
-jobs = []
-for pid in sys.argv[1:]:
-    for patch in sorted(glob.glob(f"/tmp/seed/{pid}/benign/*/patch.diff")):
-        for p in props:
-            jobs.append((patch, p))
+    if r.get("skipped") or r.get("load_error"):
+        return patch, prop, ["SKIP/LOADERR " + str(r.get("skipped") or r.get("load_error"))[:200]]
+    return patch, prop, sorted(set(v["rule"] + " " + v["func"].split(".")[-1] + " | " + v["construct"] + " :: " + v.get("detail", "")[:140] for v in r["violations"]))
+jobs = [(p, q) for (p, o) in patches for q in ([o] if own else props)]
 res = {}
-with ThreadPoolExecutor(8) as ex:
+with ThreadPoolExecutor(int(os.environ.get("JOBS", "8"))) as ex:
     for patch, prop, v in ex.map(run, jobs):
         if v:
             res.setdefault(patch, {})[prop] = v
-for pid in sys.argv[1:]:
-    for patch in sorted(glob.glob(f"/tmp/seed/{pid}/benign/*/patch.diff")):
-        r = res.get(patch)
-        print(patch, "ALARM" if r else "silent")
-        for p, v in sorted((r or {}).items()):
-            for x in v:
-                print("    [" + p + "]", x)
+n = 0
+for patch, _ in patches:
+    r = res.get(patch)
+    if r:
+        n += 1
+    print(patch, "ALARM" if r else "silent", flush=True)
+    for p, v in sorted((r or {}).items()):
+        for x in v:
+            print("    [" + p + "]", x)
+print(f"alarming variants: {n} of {len(patches)}")
